@@ -84,7 +84,7 @@ func (*prop) Cases(seed int64, tier string) []core.Case {
 const vtPath = "verif/fixtures/vt"
 
 // knownType: a type name exported by each package the tracker may import (keeps imports used when a case is dropped).
-var knownType = map[string]string{"verif/fixtures/vt": "Leaf", "verif/fixtures/vu": "Item", "time": "Duration", "bytes": "Buffer"}
+var knownType = map[string]string{"verif/fixtures/vt": "Leaf", "verif/fixtures/vu": "Item", "time": "Duration", "bytes": "Buffer", "verif/fixtures/apps/v1": "Spec", "verif/fixtures/core/v1": "Spec"}
 
 // typeText prints t as Go source using the harness's own import aliases (h_*); own => vt types unqualified.
 func typeText(t reflect.Type, own bool) string {
@@ -101,6 +101,10 @@ func typeText(t reflect.Type, own bool) string {
 			return "h_time." + t.Name()
 		case "bytes":
 			return "h_bytes." + t.Name()
+		case "verif/fixtures/apps/v1":
+			return "h_appsv1." + t.Name()
+		case "verif/fixtures/core/v1":
+			return "h_corev1." + t.Name()
 		}
 		panic("unknown package " + t.PkgPath())
 	}
@@ -382,7 +386,7 @@ func assemble(live []*caseInfo, own bool, imports map[string]string, seed int64)
 	if !own {
 		b.WriteString("\th_vt \"verif/fixtures/vt\"\n")
 	}
-	b.WriteString("\th_vu \"verif/fixtures/vu\"\n\th_time \"time\"\n\th_bytes \"bytes\"\n")
+	b.WriteString("\th_vu \"verif/fixtures/vu\"\n\th_time \"time\"\n\th_bytes \"bytes\"\n\th_appsv1 \"verif/fixtures/apps/v1\"\n\th_corev1 \"verif/fixtures/core/v1\"\n")
 	var paths []string
 	for p := range imports {
 		paths = append(paths, p)
@@ -395,7 +399,7 @@ func assemble(live []*caseInfo, own bool, imports map[string]string, seed int64)
 	if !own {
 		b.WriteString("var _ h_vt.Leaf\n")
 	}
-	b.WriteString("var _ h_vu.Item\nvar _ h_time.Duration\nvar _ h_bytes.Buffer\n")
+	b.WriteString("var _ h_vu.Item\nvar _ h_time.Duration\nvar _ h_bytes.Buffer\nvar _ h_appsv1.Spec\nvar _ h_corev1.Spec\n")
 	for _, p := range paths {
 		if kt, ok := knownType[p]; ok {
 			fmt.Fprintf(&b, "var _ %s.%s\n", imports[p], kt)
